@@ -92,6 +92,8 @@ def plan(thorough, rng):
              ("8", "12", "[0.2, 0.3, 0.45]", False, 2), ("5", "12", "[0.2, 0.3]", True, 2), ("4", "ico_20", "[0.25, 0.4]", True, 1),
              ("1", "1", "[0.2, 0.3]", False, 2), ("randomQ_8", "ico_7", "linspace(0.2, 0.4, 3)", False, 3)]
     if thorough:
+        grids.append(("4", "4", "[0.2, 0.3]", True, 2))        # open Euclidean cells: listed known finding
+    if thorough:
         for _ in range(40):
             nb = rng.choice([1, 4, 5, 8, 9, 12])
             no = rng.choice([1, 4, 5, 7, 12, 13, 20])
@@ -99,7 +101,9 @@ def plan(thorough, rng):
             oa = rng.choice(["", "ico_", "cube3D_", "randomS_"])
             nt = rng.choice([2, 3, 4])
             radii = sorted(rng.sample([0.15, 0.2, 0.25, 0.3, 0.4, 0.45, 0.6, 0.8], nt))
-            cart = rng.random() < 0.3 and no >= 4 and oa != "randomS_"
+            # Cartesian mode needs CLOSED Euclidean cells: with 4 directions (any algorithm) or sparse random directions most
+            # cells stay open and get volume / border 0 (the known-finding family F11, tracked by the listed cases below)
+            cart = rng.random() < 0.3 and no >= 5 and oa != "randomS_"
             grids.append((f"{ba}{nb}", f"{oa}{no}", str(radii), cart, rng.choice([1, 2, 0.5, 3])))
     return grids
 
